@@ -101,6 +101,74 @@ def c14_histories(r, seed, tier, model_ok):
     r.slice("file_histories", len(cases), len({c[0] for c in cases if c[0].count(",") >= 2}), [cases[0][0], cases[1][0]], dict(dist),
             "random op histories x 6 modes x initial contents on real files; compared: every returned value + final bytes; distinct = distinct histories of >= 3 operations", bad[:40])
 
+def file_program_total(fn, mode, ops):
+    """like file_program, but every operation runs under a reject handler that RETURNS the exception value, so the history goes on after a
+    refused operation and the result list shows, per step, the value or the OS error (<예외: [5, -63, errno]>)"""
+    n = len(ops)
+    def F(d): return f"ㄱ ㅇ{E(d)}"
+    H = "(ㄱㅇㄱ ㄱㅅㅎㄴ ㅎ)"
+    def opx(op, d):
+        f = F(d)
+        a = {"read": lambda: f"({E(op[1])} ㄹ {f} ㅎㄷ)", "write": lambda: f"({by(op[1])} ㅈㄹ {f} ㅎㄷ)", "tell": lambda: f"(ㅈ {f} ㅎㄴ)",
+             "seek": lambda: f"({E(op[1])} ㅈ {f} ㅎㄷ)", "seekset": lambda: f"(ㅅㅈㅂㄷ {E(op[1])} ㅈ {f} ㅎㄹ)", "seekcur": lambda: f"(ㅈㄱㅂㄷ {E(op[1])} ㅈ {f} ㅎㄹ)",
+             "trunc": lambda: f"(ㄱ {f} ㅎㄴ)", "truncn": lambda: f"({E(op[1])} ㄱ {f} ㅎㄷ)", "close": lambda: f"(ㄷ {f} ㅎㄴ)"}[op[0]]()
+        return f"({a} {H} {H} ㄱㄹㅎㄹ)"
+    def build(i):
+        if i == n:
+            rs = " ".join(f"(ㄱ ㅇ{E(n + 1 - j)})" for j in range(1, n + 1))
+            return f"((ㄷ {F(n)} ㅎㄴ) (({rs} ㅁㄹㅎ{E(n)}) ㄱㅅㅎㄴ ㅎ) ㄱㄹㅎㄷ)"
+        return f"({opx(ops[i], i)} ({build(i + 1)} ㅎ) ㄱㄹㅎㄷ)"
+    return f"({st(fn)} {MODES[mode]} ㄱㄴㅎㄷ) ({build(0)} ㅎ) ㄱㄹㅎㄷ"
+
+def c14_total_histories(r, seed, tier, model_ok):
+    """histories that INCLUDE what the handle refuses - operations the mode forbids, negative targets and sizes, read counts 0 / -1 / below -1,
+    everything after a close, closing twice - each step under a reject handler: every value, every errno and the final bytes on disk must equal
+    the total model (FilesTotal.xhistory), in which a refused operation changes nothing"""
+    R = random.Random(seed * 7919 + 0xC14 + 5); n = N(tier, 400, 8000)
+    d = scratch("c14t"); cwd = os.getcwd(); os.chdir(d); cases = []; dist = collections.Counter()
+    try:
+        for trial in range(n):
+            mode = R.choice(list(MODES)); init = R.choice([None, b"", bytes(R.randrange(256) for _ in range(R.randrange(1, 20)))])
+            if init is None and mode in ("rb", "r+b"): init = bytes(R.randrange(256) for _ in range(R.randrange(0, 6)))
+            fn = f"t{trial}.bin"
+            if init is not None: open(fn, "wb").write(init)
+            ops = []
+            for _ in range(R.randrange(1, 16)):
+                k = R.choice(["read", "read", "write", "write", "tell", "seekset", "seekcur", "trunc", "truncn", "close", "seek"])
+                if k == "read": ops.append(("read", R.choice([-1, 0, 0, 1, 3, 100, -2, -5])))
+                elif k == "write": ops.append(("write", bytes(R.randrange(256) for _ in range(R.randrange(0, 5)))))
+                elif k in ("tell", "trunc"): ops.append((k,))
+                elif k == "close":
+                    if R.random() < .45: ops.append(("close",))
+                elif k in ("seek", "seekset"): ops.append((k, R.choice([0, 1, 5, 30, -1, -7])))
+                elif k == "seekcur": ops.append((k, R.choice([0, 1, 4, -1, -3, -50])))
+                else: ops.append(("truncn", R.choice([0, 2, 10, 40, -1, -9])))
+            if not ops: ops = [("read", 0)]
+            for o in ops: dist[o[0]] += 1
+            dist["mode:" + mode] += 1
+            prog = file_program_total(fn, mode, ops); got, _ = run_main(prog)
+            disk = open(fn, "rb").read() if os.path.exists(fn) else None
+            enc = {"read": lambda o: f"R:{o[1]}", "write": lambda o: "W:" + dots(o[1]), "tell": lambda o: "T", "seek": lambda o: f"S:{o[1]}", "seekset": lambda o: f"S:{o[1]}",
+                   "seekcur": lambda o: f"C:{o[1]}", "trunc": lambda o: "X", "truncn": lambda o: f"N:{o[1]}", "close": lambda o: "K"}
+            cases.append(("X|" + mode + "|" + ("-" if init is None else dots(init)) + "|" + ",".join(enc[o[0]](o) for o in ops), got, disk, prog))
+            if os.path.exists(fn): os.remove(fn)
+    finally:
+        os.chdir(cwd); shutil.rmtree(d, ignore_errors=True)
+    if not model_ok: return
+    out = vlib.driver("fdriver", [c[0] for c in cases]); bad = []; refused = 0
+    undot = lambda s: bytes(int(x) for x in s.split(".")) if s != "e" else b""
+    for (line, got, disk, prog), mo in zip(cases, out):
+        if mo == "NONE":
+            if not got.startswith("E 5,-63"): bad.append(dict(program=prog, history=line, impl=got, model="opening a missing file in a mode that needs it: OS error", which=["open"]))
+            continue
+        c, rs = mo.split("|"); refused += rs.count("E:")
+        show = {"B": lambda x: fmtb(undot(x)), "I": lambda x: x, "N": lambda x: "Nil", "E": lambda x: f"<예외: [5, -63, {x}]>"}
+        want = "V [" + ", ".join(show[x[0]](x[2:]) for x in rs.split(",")) + "]"; wdisk = undot(c)
+        if got != want or disk != wdisk:
+            bad.append(dict(program=prog, history=line, impl=f"{got} disk={disk!r}"[:500], model=f"{want} disk={wdisk!r}"[:500], which=["values" if got != want else "disk"]))
+    r.slice("file_total_histories", len(cases), len({c[0] for c in cases}), [cases[0][0], cases[1][0]], dict(dist, refused_steps=refused),
+            "op histories incl. refused operations, closes and operations after a close x 6 modes on real files, every step under a reject handler; compared: every value / errno + final bytes vs FilesTotal.xhistory", bad[:40])
+
 def c14_faults(r, seed, tier, model_ok):
     """operations the mode forbids, operations on a closed handle, bad offsets and sizes: each must end in a language-level exception (or a
     value) and must not change the bytes on disk unless it is a permitted write"""
@@ -324,6 +392,13 @@ def c20_isolation(r, seed, tier, model_ok):
             args = [R.choice(c) for c in cols]; call_ = " ".join(args) + f" ({f}) ㅎ{E(ar)}" if " " in f else " ".join(args) + f" {f} ㅎ{E(ar)}"
             progs.append(dict(text=call_))
             if f == "ㅂ ㅂ ㅂㅎㄷ": progs.append(dict(text=f"ㄷㄴ ({call_}) ㅎㄴ")); progs.append(dict(text=f"(ㄷ ㅁㅈㅎㄴ) ({call_}) ㅎㄴ"))       # and the codec put to use
+    # results that the HOST calls equal (and of one type) but that print differently - the two real zeros, and complex zeros - produced by every
+    # arithmetic route: a memo over host values (lru_cache on a wrapper, a table of results) hands the later one the earlier one's sign
+    Z0 = "(ㄱ ㅅㅅㅎㄴ)"
+    for pos_, neg_ in ((f"{Z0} ㄴ ㄱㅎㄷ", f"{Z0} ㄴㄱ ㄱㅎㄷ"), (f"{Z0} {Z0} ㄷㅎㄷ", f"({Z0} ㄴㄱ ㄱㅎㄷ) ({Z0} ㄴㄱ ㄱㅎㄷ) ㄷㅎㄷ"), (f"{Z0} ㄴ ㄴㄴㅎㄷ", f"{Z0} ㄴㄱ ㄴㄴㅎㄷ"),
+                       (f"{Z0} ㄴ ㄴㅁㅎㄷ", f"({Z0} ㄴㄱ ㄱㅎㄷ) ㄴ ㄴㅁㅎㄷ"), (f"{Z0} ㄴ ㅅㅎㄷ", f"({Z0} ㄴㄱ ㄱㅎㄷ) ㄴ ㅅㅎㄷ"), (f"{Z0} {Z0} ㅂㅅㅎㄷ ㄴ ㄱㅎㄷ", f"{Z0} {Z0} ㅂㅅㅎㄷ ㄴㄱ ㄱㅎㄷ"),
+                       (f"{Z0} ㅁㄹㅎㄴ", f"({Z0} ㄴㄱ ㄱㅎㄷ) ㅁㄹㅎㄴ"), (f"{Z0} (ㅂ ㅅ ㅂㄹ ㄱ ㅂㅎㅁ) ㅎㄴ", f"({Z0} ㄴㄱ ㄱㅎㄷ) (ㅂ ㅅ ㅂㄹ ㄱ ㅂㅎㅁ) ㅎㄴ")):
+        progs += [dict(text=pos_), dict(text=neg_)] * 2
     progs += [dict(text="ㄴ ㄷ ㄷ\nㅎㄷ"), dict(text="ㄴ ㄷ ㄱ\nㅎㄷ"), dict(text="ㄴ ㄷ ㄴ\nㅎㄷ"), dict(text="ㄴ ㄷ (ㄱㅇㄱ ㅎ)\nㅎㄷ")]
     uniq = list({(p["text"], p.get("stdin", "")): p for p in progs}.values())
     try:
